@@ -383,6 +383,21 @@ def trace_class(repo, cname):
         if newv is phie or [x_.txt for x_ in vec(phie._value[tuple(slice(1, -1) for _ in range(d))])] != before:
             raise TranslateError("solveExplicitPDE returned / modified its input variable")
         out["explicit"] = vec(newv._value)
+        # plotprofile of a variable whose stored boundary values are the ones its boundary conditions give: coordinates = first face, cell
+        # centres, last face; values = interior values, and the face average at every face ghost position
+        phip = pf.CellVariable(mesh, np.asarray(phi._value, dtype=object).copy(), BC, BCsTerm_precalc=False)
+        phip.apply_BCs()
+        prof = phip.plotprofile()
+        out["profile"] = vec(prof[-1])
+        if tuple(np.shape(prof[-1])) != tuple(pshape):
+            raise TranslateError("plotprofile values do not have the shape of the padded array")
+        coords = []
+        fcs = [mesh.facecenters._x, mesh.facecenters._y, mesh.facecenters._z]; ccs = [mesh.cellcenters._x, mesh.cellcenters._y, mesh.cellcenters._z]
+        for a in range(d):
+            got = [x_.txt for x_ in vec(prof[a])]
+            want = [x_.txt for x_ in vec(np.asarray([fcs[a][0]] + list(ccs[a]) + [fcs[a][-1]], dtype=object))]
+            if got != want:
+                raise TranslateError(f"plotprofile coordinates of axis {a} are not (first face, cell centres, last face)")
         out["solveM"] = [matrix(c_[0]) for c_ in captured]
         out["solveR"] = [vec(c_[1]) for c_ in captured]
         t.conds.clear()
@@ -724,6 +739,13 @@ def emit(tr):
                 else:
                     lemma(f"solveL{rep}_{r}", lhs, f"bc_lhs F tm tbc tx {cell_of(idx, d)}")
                     lemma(f"solveR{rep}_{r}", Rs[r].txt, f"bc_rhs F tm tbc {cell_of(idx, d)}")
+    if tr.get("profile"):
+        w("(*CHUNK*)")
+        for r in range(ncell):
+            idx = [int(q) for q in np.unravel_index(r, pshape)]
+            if sum(1 for b in range(d) if idx[b] == 0 or idx[b] == Ns[b] + 1) >= 2:
+                continue
+            lemma(f"profile_{r}", tr["profile"][r].txt, f"plot_profile F tm (with_boundaries F tm tbc tp) {cell_of(idx, d)}")
     if tr.get("explicit"):
         w("(*CHUNK*)")
         for r in range(ncell):
